@@ -215,7 +215,17 @@ func (c *c18) logout(ch *kernel.Chooser) string {
 	}
 	oc := w.Store.Clients[uriOwner]
 	requested, uriKind := "", "absent"
-	switch ch.Int(9) {
+	switch ch.Int(10) {
+	case 9:
+		// a registered loopback address with another port, another spelling of the loopback host or another scheme:
+		// what RFC 8252 allows for redirect URIs of the authorization endpoint is no rule for post-logout URIs
+		for _, reg := range oc.PostLogout {
+			if strings.HasPrefix(reg, "http://127.0.0.1:7777/") {
+				requested = strings.Replace(reg, "http://127.0.0.1:7777/", ch.Pick("http://127.0.0.1:51234/", "http://localhost:7777/", "http://[::1]:7777/", "https://127.0.0.1:7777/", "http://127.0.0.1/"), 1)
+				uriKind = "loopback-variation"
+				c.o.Probe("post-logout-loopback-variations")
+			}
+		}
 	case 0, 1, 2:
 		requested, uriKind = oc.PostLogout[ch.Int(len(oc.PostLogout))], "registered-of-"+uriOwner
 	case 8:
@@ -395,6 +405,9 @@ func RunC18(t *testing.T, spec kernel.Spec) *kernel.Outcome {
 				if cfg.Bool(1, 3) {
 					cl.PostLogout = append(cl.PostLogout, lit)
 				}
+			}
+			if cl.AppType == op.ApplicationTypeNative && cfg.Bool(2, 3) {
+				cl.PostLogout = append(cl.PostLogout, "http://127.0.0.1:7777/signed-out") // a native app's loopback listener
 			}
 			cl.IDLifetime = time.Duration(cfg.Range(1, 20)) * time.Minute
 		}
